@@ -176,7 +176,12 @@ CLAIMED = {
             'caller\'s rounding mode; the odefun segment cache is append-only with an in-range lookup; '
             'constant_memo stores value before tag; every mutator of a matrix drops its '
             'cached LU and the LU cache carries a precision tag; nothing computed through a context '
-            'is stored in containers shared between contexts; memoize keys include keyword values.  '
+            'is stored in containers shared between contexts; memoize keys include keyword values and the TYPES of all '
+            'argument values, as does the quadrature node key (D-R1h); sizes derived from a key variable are current with '
+            'the key at the store (D-R1g); a memoize hit cannot fail where the miss succeeded (D-R6h); cached LU '
+            'factors are neither handed to a caller nor returned with overwrite (D-LU2, D-LU3); the working data of '
+            'an invertlaplace call lives on a call-local object (D-R9); the stieltjes guard parameter is '
+            'canonicalised (D-R1i).  '
             'This decides the "never reused at lower accuracy / after inputs changed / across '
             'contexts / after an aborted computation" clauses for all histories; rounding-level '
             'differences are not decided.',
@@ -194,7 +199,7 @@ CLAIMED = {
             'interval functions are enclosures; every real kernel called with an explicit directed mode '
             'honours it at its final rounding on every path (found: loggamma negated after rounding, so '
             'iv.loggamma was inverted for x < 1.46 - repaired); the cos/sin outward perturbation has the '
-            'right shape; every x + eps shortcut of the real kernels perturbs towards the sign of the neglected term (found: mpf_log near 1 - repaired); no directed kernel rounds a weakly guarded undirected intermediate (found: mpf_atan2 - repaired); interval functions outside the audited endpoint-level set remain compositions of interval operations; conversions round each endpoint outward; a packed interval is never used after one of its unpacked endpoints was recomputed (C-R9); + - * / on every combination of zero / infinite / signed endpoint classes return endpoint classes that enclose the exact range, never nan (C-R16, class interpretation); no endpoint is taken straight from a directed transcendental kernel: the kernel value goes through the outward helper, whose body is verified (C-R14, C-R19; seven genuine defects of this kind repaired).  NOT decided: choice of corner / '
+            'right shape; every x + eps shortcut of the real kernels perturbs towards the sign of the neglected term (found: mpf_log near 1 - repaired); no directed kernel rounds a weakly guarded undirected intermediate (found: mpf_atan2 - repaired); interval functions outside the audited endpoint-level set remain compositions of interval operations; conversions round each endpoint outward; a packed interval is never used after one of its unpacked endpoints was recomputed (C-R9); + - * / on every combination of zero / infinite / signed endpoint classes return endpoint classes that enclose the exact range, never nan (C-R16, class interpretation); no endpoint is taken straight from a directed transcendental kernel: the kernel value goes through the outward helper, whose body is verified (C-R14, C-R19; seven genuine defects of this kind repaired; its only unwidened non-special return is the kernel\'s own directed rounding of a factorial-table entry); the corner choice of mpi_atan2 is decided over all 36 sign configurations of the box against infimum / supremum derived from the monotonicity of atan2 (C-R20, sa/atan2_corners.py); convert_mpf_ has a directed conversion for every listed kind of input incl. rationals (C-R6).  NOT decided: choice of corner / '
             'monotonicity region beyond the turning-point brackets (C-R17), and the accuracy of the '
             'transcendental kernels inside the 2**10-unit allowance of the outward helper.',
             'Trusts the monotonicity table (sa/iv_dir.py), the reasoned operand exemptions '
@@ -216,7 +221,9 @@ CLAIMED = {
             'conjugate using mpf_neg on an interval, both repaired); every rectangle function that reaches a real interval '
             'function with unwidened transcendental endpoints (rule C-R14 of C14) inherits that finding (C-R14t: ten '
             'genuine defects with failing inputs, repaired together with the seven of C14 by the outward helper); '
-            'kernels called with a directed mode by rectangle functions honour it (C-R5).  NOT decided: corner selection inside the '
+            'kernels called with a directed mode by rectangle functions honour it (C-R5); no rectangle endpoint comes straight from a '
+            'complex transcendental kernel called with a directed mode: the corner values of gamma go through mpc_outward, whose '
+            'body (extra bits, allowance relative to the modulus, outward direction, pass-through) is verified (C-R14c, C-R19c).  NOT decided: corner selection inside the '
             'audited endpoint-level functions, the excluded region of gamma, value-level tightenings.',
             'Trusts the monotonicity table; the real interval functions are trusted only where C14 has no finding.',
             'DESIGN.md section 2, Engine C'),
@@ -375,8 +382,10 @@ CLAIMED = {
             'integer square-root correction code (isqrt_python, sqrtrem_python) is executed over a finite abstract '
             'domain (error of the approximate root in {-1,0,+1} x position of x between two squares, exact '
             'polynomial values): every reachable exit returns floor(sqrt(x)) and x - root^2 (Y-R6, Y-R7, '
-            'sa/rootoff.py); backend alternatives of the digit conversion share their recursive tail (Y-R5).  '
-            'Bit-identical results in general are NOT decided.',
+            'sa/rootoff.py); backend alternatives of the digit conversion share their recursive tail (Y-R5) and use the same '
+            'parameters (Y-R9); every argument of bitcount (66 sites) is non-negative, decided by a flow-sensitive '
+            'integer sign analysis (sa/intsign.py) with reasoned parameter / site contracts (Y-R8: the back ends '
+            'disagree on negative integers).  Bit-identical results in general are NOT decided.',
             'Assumes the C routines implement the contract named in the table row.  The exact integer '
             'approximate root isqrt_fast_python is assumed to be within one unit of the floor root (documented, '
             'and observed on 200 000 probes).',
@@ -390,10 +399,13 @@ CLAIMED = {
             'tolerance (both scaled at one precision) and whose coefficients were compared, strictly, with '
             'maxcoeff; findpoly returns only a reversed, non-None pslq relation on [1, x, .., x**i], i <= n, '
             'with the caller\'s tol/maxcoeff forwarded; identify adds a formula only for a relation that is '
-            'not None, within the bound, and has a non-zero leading coefficient.  That PSLQ finds existing '
-            'relations and the accuracy of its fixed-point iteration are numerical and NOT decided.',
-            'Assumes the PSLQ invariant "y[i] is the residual of column i of B" (maintained by the '
-            'iteration, not decided).',
+            'not None, within the bound, and has a non-zero leading coefficient.  Since the repairs of the second hunt: '
+            'the vector pslq returns has passed the INTEGER test abs(sum(v*xk)) <= (tol*xnorm) >> prec on the '
+            'fixed-point input itself (Q-R9), the input is scaled by one common power of two before the conversion '
+            '(Q-R10), identify stores a formula only after evaluating it against x (Q-R11), findpoly hands pslq '
+            'powers with guard bits (Q-R12), the string builders return a string on every path (Q-R13).  That PSLQ '
+            'FINDS existing relations is numerical and NOT decided.',
+            'Assumes sqrt_fixed / to_fixed accurate to one unit of the guard-bit format.',
             'DESIGN.md section 10 (C35)'),
     'C09': ('V-float-conversion',
             'static analysis: constant-agreement rules inside from_float / from_npfloat / to_float, call-site '
